@@ -130,6 +130,9 @@ def delayed_load(all_props, loader, element=True, isotope=False, ion=False):
         def setfn(el, value):
             #print "set", el, propname, value
             clearprops()
+            # Load the public table before overriding the value, otherwise
+            # the rest of the table would never be loaded.
+            loader()
             setattr(el, propname, value)
         return setfn
 
